@@ -72,6 +72,11 @@ local function cmpf(kind, ctl)
     local n = 0
     return function(a, b) n = n + 1; if n == k then error("cmp", 0) end; return a < b end
   end
+  -- not functions: table.sort must refuse them whatever the table is
+  if kind == "bad42" then return 42 end
+  if kind == "badstr" then return "x" end
+  if kind == "badtrue" then return true end
+  if kind == "badcall" then return setmetatable({}, {__call = function(_, a, b) return a < b end}) end
   if kind == "yield" then return function(a, b) coroutine.yield(); return a < b end end
   error("bad cmp " .. kind)
 end
